@@ -108,9 +108,15 @@ def gen_history(rng, ast, sm, packages):
                 t = rng.choice(packages[rng.choice(others)]["types"])
                 extra.append("<%s imp3/>" % t["name"])
             lines = ["%%import %s" % p] + extra
-            if rng.random() < 0.3:
+            r2 = rng.random()
+            if r2 < 0.3:
                 lines = extra + ["%%import %s" % p]
-            ops.append({"op": "load", "text": "".join(l + "\n" for l in lines) + text, "import": True})
+            if r2 > 0.7:
+                # sections of the imported types after everything else
+                full = "%%import %s\n" % p + text + ("" if text.endswith("\n") or not text else "\n") + "".join(l + "\n" for l in extra)
+            else:
+                full = "".join(l + "\n" for l in lines) + text
+            ops.append({"op": "load", "text": full, "import": True})
         elif r < 0.85:
             text = gen.gen_text(rng, sm, 0)
             ovs, _ = c14.gen_overrides(rng, sm, text)
@@ -177,7 +183,39 @@ def run_history(ast, packages, ops):
                     stats["module-made-importable"] += 1
             else:
                 ov = op.get("overrides") or ()
-                got_aged = loadcheck.real_load(aged, op["text"], url=MAIN, overrides=ov)
+                lap = op.get("overlap")
+                hook_state = {"calls": 0, "busy": False, "results": []}
+                if lap:
+                    from zcv import dt as _zdt
+                    other = ops[lap["with"]] if lap["with"] < len(ops) and ops[lap["with"]]["op"] == "load" else op
+                    ntext = other["text"]
+                    nurl = MAIN if lap["url"] == "same" else "file:///zcv/other/nested.conf"
+                    same_loader = lap["via"] == "same-loader" and "%import" not in ntext and "%import" not in op["text"] and not ov
+                    if same_loader:
+                        # one loader refuses a URL it is reading already (its recursion guard)
+                        nurl = "file:///zcv/other/nested.conf"
+
+                    def hook(_value, hook_state=hook_state, ntext=ntext, nurl=nurl):
+                        # a second load -- same schema object, same or another URL -- runs to
+                        # completion while the first is suspended in a conversion
+                        if hook_state["busy"] or hook_state["calls"] >= 2:
+                            return
+                        hook_state["busy"] = True
+                        hook_state["calls"] += 1
+                        try:
+                            if hook_state.get("loader") is not None:
+                                hook_state["results"].append(outcome(loadcheck.real_load_with(hook_state["loader"], ntext, nurl)))
+                            else:
+                                hook_state["results"].append(outcome(loadcheck.real_load(aged, ntext, url=nurl)))
+                        finally:
+                            hook_state["busy"] = False
+                    if not same_loader:
+                        _zdt.HOOK = hook
+                try:
+                    got_aged = loadcheck.real_load(aged, op["text"], url=MAIN, overrides=ov)
+                finally:
+                    if lap:
+                        _zdt.HOOK = None
                 fresh = ZConfig.loadSchema(main)
                 got_fresh = loadcheck.real_load(fresh, op["text"], url=MAIN, overrides=ov)
                 a, f = outcome(got_aged), outcome(got_fresh)
@@ -211,11 +249,26 @@ def run_history(ast, packages, ops):
                         out.append(("reused-extended-loader-differs-from-fresh:%s-vs-%s" % (r1[0], r2[0]),
                                     "step %d, option %r, %r" % (k, fixed_opt, op.get("text", "")[:200])))
                 for ld in seq:
-                    r = outcome(loadcheck.real_load_with(ld, op["text"], MAIN))
+                    if lap and same_loader:
+                        hook_state["loader"] = ld
+                        _zdt.HOOK = hook
+                    try:
+                        r = outcome(loadcheck.real_load_with(ld, op["text"], MAIN))
+                    finally:
+                        if lap:
+                            _zdt.HOOK = None
                     if r[0] != f[0] or (r[0] == "ok" and digest.first_diff(f[1], r[1])):
                         out.append(("reused-loader-differs-from-fresh:%s-vs-%s" % (r[0], f[0]),
                                     "step %d%s %r" % (k, " (overrides)" if ov else "", op.get("text", "")[:200])))
                         break
+                if lap and hook_state["results"]:
+                    stats["overlapping-loads"] += len(hook_state["results"])
+                    alone = outcome(loadcheck.real_load(ZConfig.loadSchema(main), ntext, url=nurl))
+                    for r_ in hook_state["results"]:
+                        if r_[0] != alone[0] or (r_[0] == "ok" and digest.first_diff(alone[1], r_[1])) or (r_[0] != "ok" and r_[1:] != alone[1:]):
+                            out.append(("load-inside-a-suspended-load-differs-from-the-same-load-alone:%s-vs-%s" % (r_[0], alone[0]),
+                                        "step %d (%s, %s URL): nested %r; outer %r" % (k, lap["via"], lap["url"], ntext[:150], op["text"][:150])))
+                            break
                 stats["load:" + a[0]] += 1
                 if got_aged[0] == "ok":
                     results.append(got_aged[1])
@@ -244,7 +297,8 @@ def run_history(ast, packages, ops):
                 for n_, lst in implementers(now).items():
                     added |= set(lst) - set(implementers(baseline).get(n_, []))
                 removed = any(set(implementers(baseline).get(n_, [])) - set(lst) for n_, lst in implementers(now).items())
-                if only_impl and op.get("import") and added and added <= pkg_types and not removed:
+                imports_here = op.get("import") or (op.get("overlap") and op["op"] == "load" and "%import" in ops[op["overlap"]["with"]].get("text", ""))
+                if only_impl and imports_here and added and added <= pkg_types and not removed:
                     # the one recorded finding (D9): a load with %import leaves the component's
                     # implementers on the application schema's abstract types -- nothing else
                     if not d9_reported:
@@ -331,6 +385,16 @@ def run_shard(spec):
                 it = rng.choice(cands)
                 it["default"] = rng.choice(gen.BAD[it["datatype"]])
                 counters["schema:unconvertible-default"] += 1
+        overlapping = rng.random() < 0.3
+        if overlapping:
+            # keys inside section types whose (identity) conversion re-enters ZConfig: they are
+            # converted when their section closes, i.e. while the load is still reading
+            cands = [it for t in ast["types"] for it in t["items"]
+                     if it["kind"] in ("key", "multikey") and (it.get("datatype") or "string") == "string"]
+            rng.shuffle(cands)
+            for it in cands[:3]:
+                it["datatype"] = "zcv.dt.reentrant"
+            overlapping = bool(cands)
         sm = refload.compile_schema(ast)
         packages = {}
         known = [t["name"] for t in ast["types"]]
@@ -341,7 +405,8 @@ def run_shard(spec):
                 t = {"name": "p%dt%d" % (p + 1, j + 1), "keytype": None, "datatype": rng.choice([None, "zcv.dt.wrap"]),
                      "implements": rng.choice(ast["abstract"]) if rng.random() < 0.8 else None, "extends": None,
                      "items": [{"kind": "key", "name": "v", "attribute": None, "required": False,
-                                "handler": None, "datatype": "string", "default": "d"}]}
+                                "handler": None, "datatype": "zcv.dt.reentrant" if overlapping and rng.random() < 0.5 else "string",
+                                "default": "d"}]}
                 ptypes.append(t)
             # a component type derived from an application type (re-keying its wildcard defaults)
             wildbases = [b for b in ast["types"] if any(it["name"] == "+" and it.get("defaults") for it in b["items"])
@@ -354,6 +419,13 @@ def run_shard(spec):
                                "implements": rng.choice(ast["abstract"]), "extends": b["name"], "items": []})
             packages[pname] = {"abstract": [], "types": ptypes, "imports": []}
         ops = gen_history(rng, ast, sm, packages)
+        if overlapping:
+            loads = [k_ for k_, o in enumerate(ops) if o["op"] == "load"]
+            for k_ in loads:
+                if rng.random() < 0.7:
+                    ops[k_]["overlap"] = {"with": rng.choice(loads), "url": rng.choice(["same", "same", "other"]),
+                                          "via": rng.choice(["fresh-loader", "fresh-loader", "same-loader"])}
+            counters["history-with:overlapping-loads"] += 1
         if rng.random() < 0.12:
             # a component whose datatype lives in a module that only becomes importable in the
             # course of the history (the application extends sys.path): before that, loads that
